@@ -25,12 +25,17 @@ func peerCloseBody(c *nd.Ctx) nd.Result {
 	carrier := []string{"iq", "message"}[c.Choose(2, "carrier")]
 	n := 1 + c.Choose(8, "buffered-bytes")
 	flushedFirst := c.Choose(2, "an-earlier-write-was-flushed") == 1
+	// the peer's close request overtakes its acknowledgement of a data packet
+	// whose Flush is still waiting for it (IQ carrier): the close is handled,
+	// then the acknowledgement arrives and the Flush returns
+	ackLate := carrier == "iq" && c.Choose(2, "close-overtakes-the-acknowledgement-of-a-packet-in-flight") == 1
 	ns := stanza.NSClient
 	var env *vsess.Env
 	var setupErr, opErr error
 	data := payload(n + 5)
 	var want []byte
 	closeAcked := false
+	lastFlush, lateSent := false, false
 	sentinelSeen := 0
 	out := vs.Run(c, vs.Options{Horizon: 40000}, func() {
 		env, setupErr = vsess.New(ns, 0)
@@ -48,6 +53,12 @@ func peerCloseBody(c *nd.Ctx) nd.Result {
 				}
 				done[id] = true
 				switch {
+				case el.Attr("type") == "set" && ackLate && lastFlush && !lateSent:
+					lateSent = true
+					env.PeerWrite(closeReq("c1", "s1") + fmt.Sprintf(`<iq type='result' id='%s' from='%s'/>`, id, peerJID) + `<message id='sentinel' from='` + peerJID + `' to='me@example.net/res'><body>x</body></message>`)
+				case el.Attr("type") == "set" && lateSent:
+					// the peer has closed the stream: later packets are refused
+					env.PeerWrite(fmt.Sprintf(`<iq type='error' id='%s' from='%s'><error type='cancel'><item-not-found xmlns='urn:ietf:params:xml:ns:xmpp-stanzas'/></error></iq>`, id, peerJID))
 				case el.Attr("type") == "set":
 					// data packets carried by IQs are acknowledged
 					env.PeerWrite(fmt.Sprintf(`<iq type='result' id='%s' from='%s'/>`, id, peerJID))
@@ -85,6 +96,16 @@ func peerCloseBody(c *nd.Ctx) nd.Result {
 		if opErr != nil {
 			return
 		}
+		if ackLate {
+			lastFlush = true
+			opErr = conn.(*ibb.Conn).Flush()
+			if lateSent {
+				env.PeerWrite(`</stream:stream>`)
+				vsess.Wait("serve-done", func() bool { return env.ServeDone })
+				return
+			}
+			// (fewer bytes than a base64 group: the Flush sent nothing, the peer closes as in the other case)
+		}
 		// the peer closes; afterwards a sentinel shows that the serve loop goes on
 		env.PeerWrite(closeReq("c1", "s1") + `<message id='sentinel' from='` + peerJID + `' to='me@example.net/res'><body>x</body></message></stream:stream>`)
 		vsess.Wait("serve-done", func() bool { return env.ServeDone })
@@ -92,7 +113,7 @@ func peerCloseBody(c *nd.Ctx) nd.Result {
 	if setupErr != nil {
 		panic(setupErr)
 	}
-	desc := fmt.Sprintf("peer closes while %d written bytes are still buffered locally (earlier flushed write: %v), carrier=%s", n, flushedFirst, carrier)
+	desc := fmt.Sprintf("peer closes while %d written bytes are still buffered locally (earlier flushed write: %v), carrier=%s, close overtakes the acknowledgement of the last packet=%v", n, flushedFirst, carrier, ackLate)
 	c.Note("%s outcome=%s", desc, out.Kind)
 	for _, t := range out.Trace {
 		c.Note("  %s", t)
@@ -110,7 +131,8 @@ func peerCloseBody(c *nd.Ctx) nd.Result {
 	case "horizon":
 		return fail("does-not-terminate", "blocked: %v", out.Blocked)
 	}
-	if opErr != nil {
+	if opErr != nil && !lateSent {
+		// (a Flush that the peer's close overtook may report that its later packets were refused)
 		return fail("error", "%v", opErr)
 	}
 	pk, _, _, err := wirePackets(ns, string(env.Lib.Written()))
@@ -127,11 +149,28 @@ func peerCloseBody(c *nd.Ctx) nd.Result {
 		}
 		got = append(got, p.data...)
 	}
-	if string(got) != string(want) {
+	if lateSent {
+		// the peer closed while a packet was in flight: what the encoder still
+		// held back (less than a base64 group) may never go out, nothing else is lost
+		if len(pk) == 0 || len(got) > len(want) || string(got) != string(want[:len(got)]) {
+			return fail("bytes-differ", "the peer received %q in %d packets, %q was written", got, len(pk), want)
+		}
+	} else if string(got) != string(want) {
 		return fail("bytes-differ", "the peer received %q in %d packets, %q was written", got, len(pk), want)
 	}
 	if !closeAcked {
 		return fail("close-not-acknowledged", "no result for the close request on the wire")
+	}
+	// once the close is acknowledged the peer has forgotten the stream: what was
+	// buffered must have gone out before the acknowledgement ("the peer drains
+	// what remains and then reads end-of-file")
+	acked := false
+	for _, el := range vsess.TopLevel(ns, string(env.Lib.Written())) {
+		if el.Start.Name.Local == "iq" && el.Attr("type") == "result" && el.Attr("id") == "c1" {
+			acked = true
+		} else if acked && !lateSent && strings.Contains(el.Raw, "<data") && strings.Contains(el.Raw, ibb.NS) {
+			return fail("data-after-close-acknowledgement", "a data packet follows the result for the peer's close request: %s", el.Raw)
+		}
 	}
 	if sentinelSeen != 1 {
 		return fail("serve-loop-stalled", "the stanza after the close request was handled %d times", sentinelSeen)
